@@ -221,13 +221,23 @@ Section Decode.
   Definition blank_file (f : file A) : bool :=
     match f with Bytes b => is_blank b | Rendered _ => false end.
 
-  (* UnmarshalPolicyRawData *)
-  Definition unmarshal (alloc_nil : bool) (f : file A) : decoded A :=
-    match decode_file f with
+  (* UnmarshalPolicyRawData.  [alloc_nil = true] is the tree: decode, then the
+     post-check replaces a nil pointer by an empty object.  [alloc_nil = false]
+     is seeded change C05-8 in ITS order: bytes.TrimSpace(data) empty => an empty
+     object BEFORE the decoder is asked (so also for a blank file with a tab,
+     which the scanner leaves to the decoder proper), otherwise decode without
+     the post-check (audit 2: the blankness test used to come after decoding). *)
+  Definition unmarshal_post (alloc_nil : bool) (d : doc A) : decoded A :=
+    match d with
     | DocErr => DError
     | Doc a => DObj a
-    | DocNone => if alloc_nil || blank_file f then DObj empty else DNil
+    | DocNone => if alloc_nil then DObj empty else DNil
     end.
+
+  Definition unmarshal (alloc_nil : bool) (f : file A) : decoded A :=
+    if alloc_nil then unmarshal_post true (decode_file f)
+    else if blank_file f then DObj empty
+    else unmarshal_post false (decode_file f).
 End Decode.
 
 (* ------------------------------------------------------ the decoded types *)
@@ -359,6 +369,68 @@ End Loader.
 Definition load_files pq pp pf pd : dirs -> outcome := load_dir pq pp pf pd true true.
 Definition load_files_nil pq pp pf pd : dirs -> outcome := load_dir pq pp pf pd false true.
 Definition load_files_unguarded pq pp pf pd : dirs -> outcome := load_dir pq pp pf pd true false.
+
+(* ------------------------------------------------- the gateway's START-UP mode *)
+
+(* [flow_stage] / [load_dir] above are GetFlows as the VALIDATION paths use it
+   (NewValidationStream / validate_flows / load_flows dry-run: Stream.getFlows
+   with validationMode = true returns the joined error).  At gateway start-up
+   (NewStream().Initialize(), validationMode = false, streams.go:267-277) the
+   same joined error is only LOGGED when at least one flow was read
+   ("Part of flows have errors and have been skipped") and the flows that were
+   read are loaded; with no flow read it is returned; a duplicate name makes
+   GetFlows return no flows at all, so it is returned as well.  The other
+   stages (quota loader, path parameters, processor definitions, builder) do
+   not look at the mode.  Audit 2, item 8.  NO suite evaluates this variant
+   (the `files` suite drives the validation path): its tie to streams.go is by
+   reading; the theorems about it say how far it can differ from [load_dir]. *)
+Section Startup.
+  Variable parse_q : list Z -> doc qdoc.
+  Variable parse_p : list Z -> doc pdoc.
+  Variable parse_f : list Z -> doc flowcfg.
+  Variable parse_d : list Z -> doc ddoc.
+  Variable alloc_nil : bool.
+  Variable ppguard : bool.
+
+  Definition none_read (acc : list flowcfg) : bool :=
+    match acc with [] => true | _ :: _ => false end.
+
+  Fixpoint flow_stage_startup (fs : list (file flowcfg)) (seen : list Z) (bad : bool)
+           (acc : list flowcfg) : fstage :=
+    match fs with
+    | [] => if bad && none_read acc then FSOut (OReject 1) else FSFlows (rev acc)
+    | f :: r =>
+        match unmarshal flowcfg empty_flow parse_f alloc_nil f with
+        | DNil => FSOut (OPanic 1)
+        | DError => flow_stage_startup r seen true acc
+        | DObj fc =>
+            if negb (flow_struct_ok fc) then flow_stage_startup r seen true acc
+            else if memZ (fc_name fc) seen then FSOut (OReject 1)
+            else flow_stage_startup r (fc_name fc :: seen) bad (fc :: acc)
+        end
+    end.
+
+  Definition load_dir_startup (d : dirs) : outcome :=
+    match quota_stage parse_q alloc_nil (d_quotas d) with
+    | Some o => o
+    | None =>
+        match pparam_stage parse_p alloc_nil ppguard (d_pparams d) with
+        | Some o => o
+        | None =>
+            match flow_stage_startup (d_flows d) [] false [] with
+            | FSOut o => o
+            | FSFlows l =>
+                match procdef_stage parse_d alloc_nil (d_procdefs d) with
+                | Some o => o
+                | None => of_verdict (load (CF l (quota_defined (d_quotas d))))
+                end
+            end
+        end
+    end.
+End Startup.
+
+Definition load_files_startup pq pp pf pd : dirs -> outcome :=
+  load_dir_startup pq pp pf pd true true.
 
 (* ---------------------------------------------------- correspondence entry *)
 
